@@ -404,6 +404,28 @@ def c06_fuzz(ncases, per_case):
 
 
 # ------------------------------------------------------------------- C07
+def c07_custom_alloc():
+    """Keys of every type, well-formed and defective, through every entry point under both providers with an
+    application allocator that is NOT interchangeable with libc's (the driver tracks what it handed out): every
+    block the library passes to the application's free() must have come from the application's malloc()."""
+    vias_new = ["create", "create_strn", "create_fromfile", "create_fromfp"]
+    vias_old = ["load", "load_strn", "fromfile", "fromfp"]
+    good = [octk(32, alg="HS256", kid="o"), asym("rsa2048a", 1, "RS256"), asym("rsa2048a", 0), asym("p256a", 1, "ES256"), asym("p384a", 0),
+            asym("p521a", 1), asym("k256a", 0), asym("ed25519a", 1), asym("ed448a", 0), asym("ed25519zx", 0)]
+    bad = [defect(asym("p256a", 0), "y", "offcurve"), defect(asym("p256a", 1), "d", "short"), defect(asym("rsa2048a", 1), "qi", "notb64"),
+           defect(asym("ed25519a", 1), "d", "short"), defect(octk(32), "k", "notb64"), defect(asym("p384a", 0), "crv", "unknownstr")]
+
+    def gen(seed):
+        for prov in ("openssl", "gnutls"):
+            for i, k in enumerate(good + bad):
+                yield [dict(op="Ops", name=prov),
+                       dict(op="Load", ring=0, via=vias_new[i % 4], doc="single" if i % 2 else "keys", keys=[k]),
+                       dict(op="Load", ring=0, via=vias_old[i % 4], doc="keys", keys=[k, good[(i + 3) % len(good)], bad[i % len(bad)]]),
+                       dict(op="Find", ring=0, kid="o"), dict(op="FreeBad", ring=0), dict(op="ItemFree", ring=0, index=0),
+                       dict(op="FreeAll", ring=0), dict(op="RingFree", ring=0)]
+    return gen
+
+
 def c07_fuzz(ncases, per_case):
     """Random byte strings, random JSON and byte-mutated JWKS texts through every entry point.
     Their JSON-ness is unknown to the generator (doc class "anyraw"): only 'returns, no sanitizer
@@ -533,6 +555,37 @@ def c08_fresh(n, every=1):
 
 # ------------------------------------------------------------------- C11
 _B64U = b"ABCDEFGHIJKLMNOPQRSTUVWXYZabcdefghijklmnopqrstuvwxyz0123456789-_"
+
+
+ZEROQ = {"ASAN_OPTIONS": "detect_leaks=1:leak_check_at_exit=0:abort_on_error=0:exitcode=23:allocator_may_return_null=1:"
+                         "detect_stack_use_after_return=0:quarantine_size_mb=0:thread_local_quarantine_size_kb=0"}
+
+
+def c01_rotation(reps):
+    """Verification-side key rotation: a checker holds public key A and accepts A's token; A's keyring is freed and
+    key B loaded (its item usually lands where A's was); the checker is given B: A's token must now be refused and
+    B's accepted, under either provider.  Run with a zero ASan quarantine (addresses are reused at once)."""
+    PAIRS = [("ed25519a", "ed25519b", "EdDSA"), ("rsa2048a", "rsa2048b", "RS256"), ("rsa2048a", "rsa2048b", "PS256"),
+             ("p256a", "p256b", "ES256"), ("ed448a", "ed448b", "EdDSA"), ("p384a", "p384b", "ES384"), ("p521a", "p521b", "ES512")]
+
+    def gen(seed):
+        for prov in ("openssl", "gnutls"):
+            for a, b, alg in PAIRS:
+                for r in range(reps):
+                    ops = [dict(op="Ops", name=prov), dict(op="CNew", c=0)]
+                    ta = forge(alg, pay_m=[mem("sub", "str", "a")], sigcls="valid", sigkey=asym(a, 0), sigalg=alg)
+                    tb = forge(alg, pay_m=[mem("sub", "str", "b")], sigcls="valid", sigkey=asym(b, 0), sigalg=alg)
+                    ops += [dict(op="Forge", slot=0, tok=ta), dict(op="Forge", slot=1, tok=tb)]
+                    for i in range(2 + r):
+                        cur = a if i % 2 == 0 else b
+                        ops += [dict(op="Load", ring=0, via="create", doc="keys", keys=[asym(cur, 0)]),
+                                dict(op="CSetKey", c=0, alg=alg, ring=0, key=0),
+                                dict(op="Verify", c=0, tok=dict(src="slot", slot=0)),
+                                dict(op="Verify", c=0, tok=dict(src="slot", slot=1)),
+                                dict(op="CSetKey", c=0, alg="none", ring=0, key=-1),
+                                dict(op="RingFree", ring=0)]
+                    yield ops
+    return gen
 
 
 def c12_rotation(reps):
